@@ -13,6 +13,13 @@ mkdir -p "$bin"
 if ! go build "${ov[@]+"${ov[@]}"}" -o "$bin/c08" ./props/c08 2> "$bin/c08.buildlog"; then
   echo "HARNESS-ERROR build of C08 failed"; head -40 "$bin/c08.buildlog"; exit 2
 fi
+# a replay file written by the schedule part goes to the schedule part
+rp=""
+prev=""
+for a in "$@"; do [ "$prev" = "-replay" ] && rp="$a"; prev="$a"; done
+if [ -n "$rp" ] && grep -q '"Scenario"' "$rp" 2>/dev/null; then
+  exec "$ROOT/engine/run_a.sh" C08 "$tier" -pkg osmpbf:decode.go,scanner.go,decode_data.go -sub sched -- "$@"
+fi
 "$bin/c08" -tier "$tier" "$@"; rc1=$?
 [ $rc1 -ge 2 ] && exit $rc1
 case " $* " in *" -replay "*) exit $rc1;; esac
